@@ -104,6 +104,7 @@ pub fn run_pair(prop: &'static str, idx: u64, rng: &mut Rng, ctx: &Ctx, tweak: f
         out.count("c05_data_segments", s.data_segments);
         out.count("c05_retransmitted_segments", s.retransmitted_segments);
         out.count("c05_zero_window_probes", s.probes);
+        out.count("c05_keep_alive_segments", s.keep_alives);
         out.count("c05_bytes_content_checked", s.bytes_checked);
         out.count("c05_window_edge_moved_left", s.edge_shrank);
         if s.min_slack == Some(0) {
